@@ -6,9 +6,13 @@ import BoltonsVerif.C09.UniqueProofs
 import BoltonsVerif.C09.BucketProofs
 import BoltonsVerif.C09.RedundantProofs
 import BoltonsVerif.C09.RangeProofs
+import BoltonsVerif.C09.RangeSpecProofs
+import BoltonsVerif.C09.SplitSpecProofs
+import BoltonsVerif.C09.ParamProofs
 /-
 C09 helper lemmas, one file per group of helpers:
   ChunkProofs (chunked), WindowProofs (windowed/pairwise), SplitProofs (split),
   StripProofs (l/r/strip), UniqueProofs (unique), BucketProofs (bucketize/partition),
-  RedundantProofs (redundant), RangeProofs (chunk_ranges).
+  RedundantProofs (redundant), RangeProofs (chunk_ranges); round 2: RangeSpecProofs (exact lengths,
+  uniqueness), SplitSpecProofs (maxsplit characterisation, uniqueness), ParamProofs (int() / _validate_positive_int).
 -/
